@@ -1,6 +1,7 @@
 import RtenVerif.Lemmas.Sym
 
 /-! Evaluation of operand lists: flattening, permutation, re-association (C11). -/
+set_option linter.unusedSimpArgs false
 namespace RtenVerif.Sym
 
 /-- The associative-commutative operators that `canonicalize` re-associates. -/
@@ -9,11 +10,11 @@ def Op.ac : Op → Bool
   | _ => false
 
 theorem opF_comm {o : Op} (h : o.ac = true) (x y : Int) : opF o x y = opF o y x := by
-  cases o <;> simp [Op.ac] at h <;> simp [opF] <;> first | omega | exact Int.mul_comm x y
+  cases o <;> simp [Op.ac] at h <;> simp [opF, bcastI] <;> first | omega | exact Int.mul_comm x y
 
 theorem opF_assoc {o : Op} (h : o.ac = true) (x y z : Int) :
     opF o (opF o x y) z = opF o x (opF o y z) := by
-  cases o <;> simp [Op.ac] at h <;> simp only [opF]
+  cases o <;> simp [Op.ac] at h <;> simp only [opF, bcastI]
   · omega
   · exact Int.mul_assoc x y z
   all_goals (split <;> split <;> (try split) <;> (try split) <;> omega)
